@@ -1190,7 +1190,10 @@ def run(ctx: core.Ctx) -> None:
     k = ctx.seed % len(shards)
     shards = shards[k:] + shards[:k]
     deadline = ctx.t0 + (300 if ctx.quick else 14 * 60)
-    core.par_map(shard, shards, ctx.acc, deadline=deadline)
+    try:
+        core.par_map(shard, shards, ctx.acc, deadline=deadline)
+    finally:
+        _BASE_DIR = None    # replays after the run use (and remove) their own directory
     ctx.rule = (
         f'per structured lump (planes, vertexes, texture names, texinfo+texdata, surfedges+edges, primitives, faces, original faces, HDR '
         f'faces, brushes+sides, leafs (+leaf faces/brushes/min-dist), nodes, water leaf info, visibility, brush models+physics+entity link, '
